@@ -32,6 +32,7 @@ package intermediate
 //@   requires item: is(x, *ItemToExpire) && x.(*ItemToExpire) != nil
 //@   ensures  len:  len(*pq) == old(len(*pq)) + 1 && (*pq)[old(len(*pq))] == x.(*ItemToExpire) && x.(*ItemToExpire).index == old(len(*pq))
 //@   ensures  rest: forall k in [0, old(len(*pq))): (*pq)[k] == old((*pq)[k])
+//@   ensures  arr:  arr(*pq) == old(arr(*pq)) || fresh(*pq)
 //@   modifies *pq, (*pq)[*], x.(*ItemToExpire).index
 //@
 //@ func (pq *TimeToExpirePriorityQueue) Pop() (r)
@@ -44,13 +45,15 @@ package intermediate
 //@   requires nonempty: len(pq) > 0
 //@   ensures  top: r == pq[0]
 
+//@ // oldPQ(pq, x): the item at position x of the queue on entry
+//@ pure oldPQ(pq *TimeToExpirePriorityQueue, x int) *ItemToExpire = old((*pq)[x])
 //@ func (pq *TimeToExpirePriorityQueue) Update(item, flowKey, flowRecord, activeExpireTime, inactiveExpireTime) ()
-//@   requires q:    pqIdx(*pq) && item != nil && 0 <= item.index && item.index < len(*pq) && (*pq)[item.index] == item
+//@   requires q:    pqIdx(*pq) && heapOrd(*pq, len(*pq)) && item != nil && 0 <= item.index && item.index < len(*pq) && (*pq)[item.index] == item
 //@   ensures  set:  item.flowKey == flowKey && item.flowRecord == flowRecord && item.activeExpireTime == activeExpireTime && item.inactiveExpireTime == inactiveExpireTime
 //@   ensures  len:  len(*pq) == old(len(*pq))
-//@   ensures  idx:  pqIdx(*pq) && minAtRoot(*pq)
+//@   ensures  idx:  pqIdx(*pq) && heapOrd(*pq, len(*pq)) && minAtRoot(*pq)
 //@   ensures  keep: forall j in [0, len(*pq)): 0 <= old((*pq)[j]).index && old((*pq)[j]).index < len(*pq) && (*pq)[old((*pq)[j]).index] == old((*pq)[j])
-//@   ensures  from: forall k in [0, len(*pq)): 0 <= oldIndex((*pq)[k]) && oldIndex((*pq)[k]) < len(*pq) && old(*pq)[oldIndex((*pq)[k])] == (*pq)[k]
+//@   ensures  from: forall k in [0, len(*pq)): 0 <= oldIndex((*pq)[k]) && oldIndex((*pq)[k]) < len(*pq) && oldPQ(pq, oldIndex((*pq)[k])) == (*pq)[k]
 //@   modifies (*pq)[*], (*pq)[*].(*ItemToExpire).index, item.flowKey, item.flowRecord, item.activeExpireTime, item.inactiveExpireTime
 
 // ---------------------------------------------------------------------------
@@ -68,7 +71,7 @@ package intermediate
 //@     && a.expirePriorityQueue[a.flowKeyRecordMap[k].PriorityQueueItem.index] == a.flowKeyRecordMap[k].PriorityQueueItem
 //@     && a.flowKeyRecordMap[k].PriorityQueueItem.flowKey != nil && mapkey(*a.flowKeyRecordMap[k].PriorityQueueItem.flowKey) == k
 //@ pure aggI2(a *AggregationProcess) bool = forall k: has(a.flowKeyRecordMap, k) ==> flowOK(a, k)
-//@ pure aggInv(a *AggregationProcess) bool = a != nil && a.flowKeyRecordMap != nil && pqIdx(a.expirePriorityQueue) && minAtRoot(a.expirePriorityQueue) && aggI1(a) && aggI2(a)
+//@ pure aggInv(a *AggregationProcess) bool = a != nil && a.flowKeyRecordMap != nil && pqIdx(a.expirePriorityQueue) && heapOrd(a.expirePriorityQueue, len(a.expirePriorityQueue)) && minAtRoot(a.expirePriorityQueue) && aggI1(a) && aggI2(a)
 
 //@ func (a *AggregationProcess) deleteFlowKeyFromMapWithoutLock(flowKey) (err)
 //@   requires a:   a != nil && a.mutex.held
